@@ -152,9 +152,29 @@ def plan(prop, tier, seed):
     return out
 
 
+def validate_reference(rep, prop):
+    """translator validation (DESIGN.md 4.3): the repository's in-process scenario tests through the oracle proxy and the
+    reference monitors; an alarm on a maintainer-blessed trace that no known finding lists is a bug of the reference"""
+    from vk import validate
+    v = validate.run()
+    known = common.load_known()
+    bad = []
+    for a in v['alarms']:
+        viol = {'rule': a['rule'], 'msg': a['msg'], 'extra': a['extra']}
+        if not any(common.match_known(known, p, viol, {}) for p in ('C01', 'C02', 'C03', 'C05', 'C07', 'C10')):
+            bad.append(a)
+    rep.extra_cov['traces_validated_against_impl'] = v['runs']
+    rep.side['reference_validation'] = {'scenario_runs': v['runs'], 'steps': v['steps'], 'rule_evaluations': v['rule_evaluations'],
+                                        'alarms': len(v['alarms']), 'alarms_not_listed': len(bad), 'test_failures': v['failures'][:5],
+                                        'skipped_remote_or_rt': v['skipped']}
+    if bad or v['failures']:
+        rep.harness_error(f'reference validation failed: {bad[:2]} {v["failures"][:2]}')
+
+
 def run_plan(rep, prop, tier, seed, twin=None):
     jobs = plan(prop, tier, seed)
     fill_report(rep, prop, tier)
+    validate_reference(rep, prop)
     res = common.run_jobs(jobs)
     rep.add_jobs(res)
     return res
